@@ -205,10 +205,12 @@ def xarray_detached_variable(ck):
                 continue
             got = {(r[0], r[2]) for r in run.results}
             want = {(sid, test) for (ci, sid, mod, test), (rows, d) in expected.items() if d is not None and d.kind == 'return'}
+            optional = set()
             if n_c == 5:
-                # same length as the time axis: the stream documents that it then borrows the axis ("the user asked for it")
-                want |= {('c', 'flat_line_test'), ('c', 'rate_of_change_test')}
-            ck.ob('C18.dropped', label, got == want, key='xarray:detached-variable:result-set',
+                # same length as the time axis: the stream then borrows the axis ("the user asked for it"); the property neither demands nor
+                # forbids that, so the time-dependent tests of the detached variable may be present or absent
+                optional = {('c', 'flat_line_test'), ('c', 'rate_of_change_test')}
+            ck.ob('C18.dropped', label, want <= got <= want | optional, key='xarray:detached-variable:result-set',
                   what=f'{label}: results {sorted(got)}, expected {sorted(want)} (a test whose time input is not available must drop out)')
             for r in run.results:
                 if r[0] == 'c' and n_c != 5:
